@@ -44,6 +44,21 @@ def make_jobs(ctx):
     frow = [{"k": "f2h", "f": "f2h", "hi": [v >> 16 for v in c], "lo": [v & 0xFFFF for v in c]} for c in hg.chunks(fl, per)]
     for i, rs in enumerate(hg.chunks(frow, max(1, (len(frow) + 3) // 4))):
         jobs.append(hg.Job("f2h-%d" % i, [hg.hdr(S=[0])] + rs))
+    # the same conversion, and half arithmetic, while the calling thread's rounding direction is upward / downward /
+    # toward zero: the results are specified as round-to-nearest-even regardless (the F16C path must not inherit MXCSR)
+    step = 6 if q else 2
+    rmrows = []
+    for n, r0 in enumerate(frow[::step]):
+        r1 = dict(r0); r1["rm"] = 1 + n % 3
+        rmrows.append(r1)
+    jobs.append(hg.Job("f2h-rm", [hg.hdr(S=[0])] + rmrows))
+    rsub = S[::16] if q else S[::8]
+    rows = [hg.hdr(S=S)]
+    for n, op in enumerate(("add", "sub", "mul", "div")):
+        for m, r0 in enumerate(hg.bin_rows(op, rsub)):
+            r1 = dict(r0); r1["rm"] = 1 + (n + m) % 3
+            rows.append(r1)
+    jobs.append(hg.Job("bin-rm", rows))
     # double -> half, integer -> half
     db = hg.double_inputs(ctx.seed, q)
     drow = []
